@@ -16,6 +16,8 @@ type extModel struct {
 	doc   string
 	mods  func(ms *ModSet, c *ssa.CallCommon)
 	apply func(fr *Frame, st *State, c *ssa.CallCommon, args []Val, res ssa.Value) Val
+	// targets: the pointers through which the call writes modelled heap cells (nil = unknown)
+	targets func(c *ssa.CallCommon) []ssa.Value
 }
 
 func noMods(ms *ModSet, c *ssa.CallCommon) {}
@@ -52,7 +54,7 @@ func (e *Engine) extModel(f *ssa.Function) *extModel {
 			return m
 		}
 	}
-	return nil
+	return lookupCodec(f)
 }
 
 func (e *Engine) extInvoke(c *ssa.CallCommon) *extModel {
@@ -341,6 +343,52 @@ func boxedUF(name string) func(fr *Frame, st *State, c *ssa.CallCommon, args []V
 	}
 }
 
+func init() {
+	storeDoc := "storage back end: no effect on the modelled heap; returns unconstrained bytes (length <= input budget) or an error"
+	for _, iface := range []string{"github.com/tokenized/pkg/storage.Reader", "github.com/tokenized/pkg/storage.Storage", "github.com/tokenized/pkg/storage.StreamStorage"} {
+		regInvoke(iface+".Read", storeDoc, nil, func(fr *Frame, st *State, c *ssa.CallCommon, args []Val, res ssa.Value) Val {
+			out := fr.freshResult(st, c, res)
+			v := fr.v
+			v.smt.assert("(<= (s.len " + out.Tuple[0].T + ") " + v.heap(st, v.ghostKey("inputBudget", "Int")) + ")")
+			return out
+		})
+	}
+	for _, n := range []string{"github.com/tokenized/pkg/storage.Searcher.Search", "github.com/tokenized/pkg/storage.Storage.Search"} {
+		regInvoke(n, "storage back end: returns a list of stored blobs (count and sizes <= input budget) or an error", nil, func(fr *Frame, st *State, c *ssa.CallCommon, args []Val, res ssa.Value) Val {
+			out := fr.freshResult(st, c, res)
+			v := fr.v
+			v.smt.assert("(<= (s.len " + out.Tuple[0].T + ") " + v.heap(st, v.ghostKey("inputBudget", "Int")) + ")")
+			return out
+		})
+	}
+	for _, n := range []string{"github.com/tokenized/pkg/storage.Storage.Write", "github.com/tokenized/pkg/storage.Storage.Remove", "github.com/tokenized/pkg/storage.Writer.Write",
+		"github.com/tokenized/pkg/storage.Remover.Remove",
+		"github.com/tokenized/pkg/storage.Storage.List", "github.com/tokenized/pkg/storage.Lister.List", "github.com/tokenized/pkg/storage.Storage.Clear"} {
+		regInvoke(n, "storage back end: no effect on the modelled heap; result unconstrained", nil, pureOpaque)
+	}
+	reg("github.com/tokenized/pkg/bitcoin.NewHash32", "error iff len(b) != 32; otherwise a fresh hash", func(ms *ModSet, c *ssa.CallCommon) {
+		if c != nil {
+			ki := kiBox(deref(c.Signature().Results().At(0).Type()))
+			ki.FreshOnly = true
+			ms.add(ki)
+		}
+	}, func(fr *Frame, st *State, c *ssa.CallCommon, args []Val, res ssa.Value) Val {
+		v := fr.v
+		b := fr.term(st, c.Args[0])
+		rt := deref(c.Signature().Results().At(0).Type())
+		r := v.newRef(st, "newhash")
+		hv := v.smt.fresh("newhash.v", v.smt.sortOf(rt))
+		v.storePtr(st, Val{T: r}, rt, hv)
+		errT := v.smt.fresh("newhash.err", "Iface")
+		v.smt.assert(v.closedFact(errT, types.Universe.Lookup("error").Type(), v.alloc(st), 0))
+		v.smt.assert(eq(eq(errT, "(mk-iface 0 0)"), eq("(s.len "+b+")", "32")))
+		ptr := v.smt.define("newhash.p", "Int", ite(eq(errT, "(mk-iface 0 0)"), r, "0"))
+		out := Val{Tuple: []Val{{T: ptr}, {T: errT}}}
+		fr.setResult(res, out)
+		return out
+	})
+}
+
 func pureOpaqueNonNilErr(fr *Frame, st *State, c *ssa.CallCommon, args []Val, res ssa.Value) Val {
 	out := fr.freshResult(st, c, res)
 	f, _ := c.Value.(*ssa.Function)
@@ -372,6 +420,13 @@ func (fr *Frame) lockOp(st *State, m Val, lock bool, c *ssa.CallCommon) {
 	cur := sel(h, obj)
 	name := strings.TrimPrefix(m.Loc.key, "F!")
 	v.siteCount["lock"]++
+	if v.noMonitor() {
+		v.setHeap(st, hk, sto(h, obj, fmt.Sprint(lock)))
+		if !lock {
+			st.relock[hk] = true
+		}
+		return
+	}
 	if lock {
 		v.addObl(st, "monitor", fmt.Sprintf("lock.%s#%d", name, v.siteCount["lock"]), not(cur), "Lock() is called with the mutex not held by this call", nil, c.Pos())
 		if st.relock[hk] {
